@@ -333,3 +333,72 @@ def kernel_shapes(ctx, P, rule="STATS-KERNEL"):
         r = strip(last[0].kids[1])
         ok = r is not None and r.k == "ConditionalOperator" and "remainder" in estr(r.kids[0]) and "<<" in estr(r.kids[1]) and estr(r.kids[2]) == "all"
     ctx.ob(rule, "get_all_samples_bits|tail", ok, tu.loc(fn.node), "last word = remainder ? ~(all << remainder) : all")
+
+
+def lazy_flush(ctx, P, rule="STATS-LAZY", floor=2):
+    """Lazily accrued statistics: value += (now - last_update[u]) * rate[u].  Whenever rate[u] changes, u's accrual point moves."""
+    from sa.expr import walk as _walk
+    ctx.rule(rule, "where a statistic is accrued lazily as (position - last_update[u]) * rate[u] (branch-mode allele frequency "
+                   "spectrum: rate = branch_length), every assignment that changes rate[u] is accompanied, in the same block, by a "
+                   "flush of u (a call to the accrual function with u as the node) or by `last_update[u] = position`: otherwise the "
+                   "new rate is applied to the span that elapsed under the old one (a branch is counted over the gap in which the "
+                   "node was detached)")
+    tu = P.tus["trees"]
+    # accrual functions: parameters (node, rate array, last_update array) with  x = (… - last_update[node]) * rate[node]
+    flush = {}
+    for fn in tu.funcs.values():
+        if fn.body is None:
+            continue
+        pn = [p.name for p in fn.params]
+        if "last_update" not in pn:
+            continue
+        for x in _walk(fn.body):
+            if x.k == "BinaryOperator" and x.op == "*":
+                t = estr(x)
+                m = re.search(r"last_update\[(\w+)\]\) \* (\w+)\[(\w+)\]", t)
+                if m and m.group(1) == m.group(3) and m.group(2) in pn and m.group(1) in pn:
+                    flush[fn.name] = (pn.index(m.group(1)), pn.index(m.group(2)), pn.index("last_update"))
+    ctx.need(bool(flush), "a lazily accruing function (… - last_update[u]) * rate[u] in trees.c")
+    n = 0
+    for fn in tu.funcs.values():
+        if fn.body is None:
+            continue
+        sites = [c for c in calls(fn.body) if callee(c) in flush]
+        if not sites:
+            continue
+        F = Facts(P, fn)
+        rate_names = {estr(c.kids[1 + flush[callee(c)][1]]) for c in sites}
+        lu_names = {estr(c.kids[1 + flush[callee(c)][2]]) for c in sites}
+        k = 0
+        for x in _walk(fn.body):
+            if not (x.k == "BinaryOperator" and x.op == "="):
+                continue
+            l = strip(x.kids[0])
+            if l is None or l.k != "ArraySubscriptExpr" or estr(l.kids[0]) not in rate_names:
+                continue
+            node = estr(l.kids[1])
+            # the innermost compound statement containing the assignment
+            blk = None
+            cur = x
+            while id(cur) in F.parent:
+                cur = F.parent[id(cur)]
+                if cur.k == "CompoundStmt":
+                    blk = cur
+                    break
+            ok = False
+            if blk is not None:
+                for y in _walk(blk):
+                    if y.k == "CallExpr" and callee(y) in flush and estr(y.kids[1 + flush[callee(y)][0]]) == node:
+                        ok = True
+                    if y.k == "BinaryOperator" and y.op == "=":
+                        ly = strip(y.kids[0])
+                        if ly is not None and ly.k == "ArraySubscriptExpr" and estr(ly.kids[0]) in lu_names and estr(ly.kids[1]) == node:
+                            ok = True
+            n += 1
+            ctx.ob(rule, "%s|%s@%d" % (fn.name, estr(l), k), ok, tu.loc(x),
+                   "`%s` changes the rate of %s and %s is flushed / re-dated in the same block" % (estr(x), node, node) if ok else
+                   "`%s` changes the rate of %s but neither flushes %s nor sets last_update[%s]: the new rate is applied to the span "
+                   "elapsed before the change" % (estr(x), node, node, node))
+            k += 1
+    ctx.floor(rule, floor)
+    return n
